@@ -140,14 +140,15 @@ func (i *InvalidationIndex) invalidateByLabels(ctx context.Context, labeledKeys 
 
 			for label, keys := range cutKeys {
 				// Cut keys already deleted in other labels.
-				for j, k := range keys {
-					if deleted[k] {
-						keys[j] = keys[len(keys)-1]
-						keys = keys[:len(keys)-1]
+				kept := keys[:0]
+
+				for _, k := range keys {
+					if !deleted[k] {
+						kept = append(kept, k)
 					}
 				}
 
-				labeledKeys[label] = append(labeledKeys[label], keys...)
+				labeledKeys[label] = append(labeledKeys[label], kept...)
 			}
 		}
 	}()
